@@ -17,6 +17,9 @@ pub enum WalFault {
     Partial,
     /// append/create only: DiskFull, no effect
     DiskFull,
+    /// append only: like Partial, but the writer's reported size() does not count the torn bytes — the bookkeeping of a
+    /// writer that adds to its size only after a complete write (the repository's LocalWalWriter)
+    PartialUncounted,
 }
 
 impl WalFault {
@@ -25,6 +28,7 @@ impl WalFault {
             WalFault::Fail => "fail",
             WalFault::Partial => "partial",
             WalFault::DiskFull => "diskfull",
+            WalFault::PartialUncounted => "partial-uncounted",
         }
     }
 }
@@ -165,6 +169,8 @@ impl VWalStore {
 pub struct VWriter {
     store: VWalStore,
     name: String,
+    /// bytes in the file that size() does not report (torn bytes of PartialUncounted faults)
+    hidden: u64,
 }
 
 fn io_err(msg: &str) -> WalError {
@@ -183,6 +189,11 @@ impl WalFileWriter for VWriter {
                 let n = data.len() / 2;
                 (&data[..n], Err(WalError::PartialWrite { expected: data.len(), actual: n }))
             }
+            Some(WalFault::PartialUncounted) => {
+                let n = data.len() / 2;
+                self.hidden += n as u64;
+                (&data[..n], Err(io_err("injected write failure after part of the bytes")))
+            }
         };
         let f = i.files.entry(self.name.clone()).or_default();
         f.data.extend_from_slice(written);
@@ -197,7 +208,8 @@ impl WalFileWriter for VWriter {
             synced_after,
         };
         self.store.record(&mut i, op);
-        result.map(|_| len_after as u64)
+        let hidden = self.hidden;
+        result.map(|_| len_after as u64 - hidden)
     }
 
     fn sync(&mut self) -> Result<(), WalError> {
@@ -227,7 +239,7 @@ impl WalFileWriter for VWriter {
     }
 
     fn size(&self) -> u64 {
-        self.store.inner.lock().unwrap().files.get(&self.name).map(|f| f.data.len() as u64).unwrap_or(0)
+        self.store.inner.lock().unwrap().files.get(&self.name).map(|f| f.data.len() as u64).unwrap_or(0) - self.hidden
     }
 }
 
@@ -264,6 +276,7 @@ impl WalStore for VWalStore {
             Ok(VWriter {
                 store: self.clone(),
                 name: name.to_string(),
+                hidden: 0,
             })
         } else if fault == Some(WalFault::DiskFull) {
             Err(WalError::DiskFull)
